@@ -1221,7 +1221,8 @@ void push_function_context () {
 
   if (last_function_context == MAX_FUNCTION_DEPTH - 1)
     {
-      yyerror ("Function pointers nested too deep");
+      /* no context was pushed, so the parser must not go on to pop one */
+      lexerror ("Function pointers nested too deep");
       return;
     }
   fc = &function_context_stack[++last_function_context];
